@@ -116,6 +116,19 @@ CLAIMS["C09"] = dict(
     technique="contract-based deductive verification of the source-level hazards (generated loop invariants with race-freedom side conditions); bit identity only bounded",
     note=TRUST + " Triangle/qhull/SuperLU/numba code generation are outside contracts; level claimed is 'other', not proof.")
 
+CLAIMS["C05"] = dict(
+    category="proof",
+    text="Loop invariant with ghost history on the real Runner._run_stage (update function and frame writer abstracted by contracts; save_every, end_time "
+         "and every time step symbolic - no bound on k or N): the update is called exactly once per step, in order, with time T(i), the previous dt and "
+         "state S(i); every frame written is labelled (s, T(s)) and holds S(s); frames are written at multiples of save_every and at the final step; the "
+         "buffer written with a frame holds the steps since the previous frame once, in order, zero padded; the loop leaves at the first step whose time "
+         "reaches end_time; thermalisation is never recorded and the recorded stage restarts from step 0, time 0 with a cleared buffer (real Runner.run); "
+         "update() records dt / probes / screening iterations once per step. Reader side (DynamicsData.from_hdf5, Solution.times, HDF5 ranks) is covered "
+         "only by the exhaustive bounded native run (k <= N+2, N <= 9). Four defects found here were repaired by fix: commits.",
+    design_ref="DESIGN.md section 4 C05",
+    technique="contract-based deductive verification: loop invariant with ghost history (quantified buffer invariant) on the real runner, VCs to z3; bounded native stand-in for the HDF5 reader",
+    note=TRUST + " dt>0 from C12. tqdm/logging/monitor outside the contract.")
+
 NA = {}
 
 checks = []
